@@ -981,7 +981,7 @@ func churn(res *Result, col *collector, rng *rand.Rand, seed int64, rounds int) 
 			cur := atomic.LoadInt64(&churnOps) + atomic.LoadInt64(&dialsDone)
 			if cur != last {
 				last, lastChange = cur, time.Now()
-			} else if time.Since(lastChange) > 12*time.Second {
+			} else if time.Since(lastChange) > 8*time.Second {
 				stalled, waiting = true, false
 			}
 		}
